@@ -418,3 +418,179 @@ def blocked_report(info):
                 out.append("resource #%d (objects=%d prod=%d cons=%d): producer fifo %d parked in get_empty, pool=%d"
                            % (r["index"], r["objects"], r["producers"], r["consumers"], fi, r["pool"]))
     return out
+
+
+# ====================================================================== C24: EncDec segment trace (H4)
+def seg_init_fields(rec):
+    """SEG_INIT record -> dict(ptr, cols, rows, w, h, max_rows, max_bands) (see EbVerifHooks.h)"""
+    seq, tid, kind, a, b, c, d = rec
+    return {"ptr": a, "cols": b & 0xFFFF, "rows": (b >> 16) & 0xFFFF, "w": c & 0xFFFF, "h": (c >> 16) & 0xFFFF,
+            "max_rows": d & 0xFFFF, "max_bands": (d >> 16) & 0xFFFF, "seq": seq}
+
+
+def seg_requests(recs):
+    """Distinct (w, h, cols, rows, ctor_cols, ctor_rows) tuples initialised in the trace (input of `segwalk sets`)."""
+    out = []
+    seen = set()
+    for r in recs:
+        if r[2] == 32:
+            f = seg_init_fields(r)
+            k = (f["w"], f["h"], f["cols"], f["rows"], f["max_bands"] - f["max_rows"], f["max_rows"])
+            if k not in seen:
+                seen.add(k)
+                out.append(k)
+    return out
+
+
+def check_segments(recs, predicted):
+    """C24 oracle over H4 records.  predicted: dict (w,h,cols,rows,ctor_cols,ctor_rows) -> {segment index: [(x,y),..]}
+    (the SB sets produced by the transcription of the kernel's traversal loop, from `segwalk sets`).
+    Every initialisation of a segments object opens an 'instance' (one tile group of one picture, one encode
+    pass); its START/SB/DONE records follow until the next initialisation of the same object.
+    Returns (violations, info)."""
+    viol = []
+
+    def v(kind, msg):
+        if len(viol) < 40:
+            viol.append((kind, msg))
+
+    cur = {}  # ptr -> instance
+    done_instances = []
+
+    def close(inst):
+        done_instances.append(inst)
+
+    stats = collections.Counter()
+    for rec in recs:
+        seq, tid, kind, a, b, c, d = rec
+        if kind < 32 or kind > 35:
+            continue
+        stats[EV[kind]] += 1
+        if kind == 32:
+            f = seg_init_fields(rec)
+            if a in cur:
+                close(cur[a])
+            key = (f["w"], f["h"], f["cols"], f["rows"], f["max_bands"] - f["max_rows"], f["max_rows"])
+            cur[a] = {"f": f, "key": key, "start": {}, "done": {}, "sbs": collections.defaultdict(list), "open": {},
+                      "pic": None, "tg": None, "abs": [], "order": []}
+            continue
+        inst = cur.get(a)
+        if inst is None:
+            stats["events_without_init"] += 1
+            v("event-without-init", "segment record for an object that was never initialised (seq %d)" % seq)
+            continue
+        if kind == 33:
+            pic, tg = c, d
+            if inst["pic"] is None:
+                inst["pic"], inst["tg"] = pic, tg
+            elif (inst["pic"], inst["tg"]) != (pic, tg):
+                v("mixed-instance", "segments object used by picture %d tile group %d while still armed for picture %d "
+                                    "tile group %d (seq %d)" % (pic, tg, inst["pic"], inst["tg"], seq))
+            if b in inst["start"]:
+                v("double-start", "picture %d tile group %d: segment %d started twice (seq %d and %d)"
+                  % (pic, tg, b, inst["start"][b], seq))
+            inst["start"][b] = seq
+            inst["open"][tid] = b
+            inst["order"].append(b)
+        elif kind == 34:
+            if inst["open"].get(tid) != b:
+                v("sb-outside-segment", "SB record of segment %d from a thread that has not started it (seq %d)" % (b, seq))
+            inst["sbs"][b].append((c & 0xFFFF, (c >> 16) & 0xFFFF))
+            inst["abs"].append(((c >> 32) & 0xFFFF, (c >> 48) & 0xFFFF))
+        elif kind == 35:
+            if inst["open"].get(tid) != b:
+                v("done-without-start", "segment %d finished by a thread that has not started it (seq %d)" % (b, seq))
+            inst["open"].pop(tid, None)
+            if b in inst["done"]:
+                v("double-done", "segment %d finished twice (seq %d)" % (b, seq))
+            inst["done"][b] = seq
+    for inst in cur.values():
+        close(inst)
+
+    pictures = collections.defaultdict(list)  # (pic, generation) -> instances
+    gen = collections.Counter()
+    nseg = nsb = nchecked = nskipped = ndeps = 0
+    grids = set()
+    orders = []
+    for inst in sorted(done_instances, key=lambda i: i["f"]["seq"]):
+        f = inst["f"]
+        if not inst["start"] and not inst["sbs"]:
+            nskipped += 1  # armed but never encoded (first pass of a 2-pass encode bypasses EncDec)
+            continue
+        pred = predicted.get(inst["key"])
+        where = "picture %s tile group %s (%dx%d SBs, grid %dx%d)" % (inst["pic"], inst["tg"], f["w"], f["h"], f["cols"], f["rows"])
+        if pred is None:
+            v("no-prediction", "%s: no predicted SB sets" % where)
+            continue
+        nchecked += 1
+        grids.add((f["w"], f["h"], f["cols"], f["rows"]))
+        seg_of = {}
+        for s, sbs in pred.items():
+            for xy in sbs:
+                seg_of[tuple(xy)] = s
+        if len(seg_of) != f["w"] * f["h"]:
+            v("prediction-coverage", "%s: the transcription covers %d of %d SBs" % (where, len(seg_of), f["w"] * f["h"]))
+        for s, sbs in pred.items():
+            want = [tuple(x) for x in sbs]
+            got = inst["sbs"].get(s, [])
+            nseg += 1
+            nsb += len(got)
+            if s not in inst["start"]:
+                v("never-started", "%s: segment %d (%d SBs) never started" % (where, s, len(want)))
+                continue
+            if s not in inst["done"]:
+                v("never-done", "%s: segment %d never finished" % (where, s))
+            if got != want:
+                v("sb-set", "%s: segment %d processed %s, predicted %s" % (where, s, got[:6], want[:6]))
+        for s in inst["start"]:
+            if s not in pred:
+                if inst["sbs"].get(s):
+                    v("sb-set", "%s: segment %d is empty in the prediction but processed %s" % (where, s, inst["sbs"][s][:4]))
+                stats["empty_segments_started"] += 1
+        # dependency order on seq
+        w, h = f["w"], f["h"]
+        bad = False
+        for (x, y), s in seg_of.items():
+            if bad:
+                break
+            for nx, ny in ((x - 1, y), (x, y - 1), (x + 1, y - 1)):
+                if nx < 0 or ny < 0 or nx >= w:
+                    continue
+                n = seg_of.get((nx, ny))
+                if n is None or n == s:
+                    continue
+                ndeps += 1
+                ds, ss = inst["done"].get(n), inst["start"].get(s)
+                if ss is not None and (ds is None or ds > ss):
+                    v("dependency-order", "%s: segment %d started (seq %s) before segment %d holding SB (%d,%d) was done (seq %s)"
+                      % (where, s, ss, n, nx, ny, ds))
+                    bad = True
+                    break
+        g = gen[(inst["pic"], inst["tg"])]
+        gen[(inst["pic"], inst["tg"])] += 1
+        pictures[(inst["pic"], g)].append(inst)
+        orders.append((f["w"], f["h"], f["cols"], f["rows"], tuple(inst["order"])))
+    # every SB of the picture once across its tile groups
+    npics = 0
+    for (pic, g), insts in pictures.items():
+        seen = set()
+        total = 0
+        for inst in insts:
+            for xy in inst["abs"]:
+                total += 1
+                if xy in seen:
+                    v("picture-coverage", "picture %s: SB %s processed twice" % (pic, xy))
+                    break
+                seen.add(xy)
+        if seen:
+            mw = max(x for x, y in seen) + 1
+            mh = max(y for x, y in seen) + 1
+            if len(seen) != mw * mh:
+                v("picture-coverage", "picture %s (pass %d): %d distinct SBs processed, bounding box %dx%d" % (pic, g, len(seen), mw, mh))
+            npics += 1
+    info = {"event_counts": dict(stats), "instances_checked": nchecked, "instances_skipped": nskipped,
+            "pictures": npics, "segments": nseg, "sbs": nsb, "dependencies_checked": ndeps,
+            "grids": sorted(grids), "orders": orders,
+            "picture_boxes": sorted({(max(x for x, y in i["abs"]) + 1, max(y for x, y in i["abs"]) + 1)
+                                     for insts in pictures.values() for i in insts if i["abs"]})}
+    return viol, info
